@@ -191,16 +191,14 @@ def findEocd64 (nominal upper : Nat) : m (Eocd64 × Nat) :=
   findEocd64Loop nominal upper (upper + 1 - nominal) nominal
 
 def getDirectoryCounts (footer : Eocd) (cdeStart : Nat) : m (Nat × Nat × Nat) := do
-  let sk ← ioAttempt (ioSeek (.endOff (-(20 + 22 + (footer.comment.length : Int)))))
-  let loc : Option Locator ← match sk with
-    | .ok _ => do
+  let loc : Option Locator ←
+    (if cdeStart < 20 then pure none else do
+      let _ ← ioSeek (.endOff (-(20 + 22 + (footer.comment.length : Int))))
       let r ← ioAttempt parseLocator
       match r with
       | .ok l => pure (some l)
       | .error .invalidArchive => pure none
-      | .error e => ioThrow e
-    | .error (.io .invalidInput) => pure none
-    | .error e => ioThrow e
+      | .error e => ioThrow e)
   match loc with
   | none =>
     let sz := footer.cdSize.toNat
